@@ -528,6 +528,9 @@ class PixelAperture(Aperture):
             error = np.asanyarray(error)
             if error.shape != data.shape:
                 raise ValueError('error and data must have the same shape.')
+            if error.dtype.kind in 'iu':
+                # squaring an integer array can overflow its dtype
+                error = error.astype(float)
 
         # check Quantity inputs
         unit = {getattr(arr, 'unit', None) for arr in (data, error)
